@@ -1,14 +1,14 @@
 /* C05 sweep 2 -- serialise -> parse is the identity at every stream position.
  *
- * case = one schedule (extension table + grammar slice, ref/c05_sched.h) carried by a task with
- * a fixed set of attributes; inside the case every consumption prefix k of c05_klist() is run:
+ * case = one schedule of the extension table, or one (rule, anchor) of the grammar slice with all its
+ * terminations (ref/c05_sched.h), carried by a task with a fixed set of attributes; inside the case every consumption prefix k of c05_klist() is run:
  *   text -> parser -> task A; pop k; write A the way echsd/echsq do; parse the written text -> B;
  *   drain A and B (<= 200): instants equal, durations equal, attributes equal; if A has nothing
  *   left nothing may come back.
  * Both streams are produced by the code under test, so the RRULE expansion itself is not judged
  * here (C01); only that the written task describes exactly the occurrences not yet consumed.
  *
- * options: ext=0|1 gram=0|1 maxparts= menucap= intervals= anchors= terms=quick|full ks=quick|full form=echsd|echsq
+ * options: ext=0|1 gram=0|1 maxparts= date3= menucap= intervals= anchors= terms=quick|full ks=quick|full form=echsd|echsq
  */
 #include "vdrv.h"
 #include "ref/icalio.h"
@@ -24,82 +24,96 @@ attr_diff(int fld, const char *how, const char *want, const char *got, void *clo
 {
 	const struct attr_clo_s *c = clo;
 	char sig[VD_SIGLEN];
-	snprintf(sig, sizeof(sig), "attr/%s-%s/%s/%s", c05_fname[fld], how, c->kcl, c->kind);
+	/* attributes do not depend on the rule: one class for all grammar schedules */
+	snprintf(sig, sizeof(sig), "attr/%s-%s/%s/%s", c05_fname[fld], how, c->kcl, !strncmp(c->kind, "gram-", 5) ? "gram" : c->kind);
 	vd_viol(sig, "%s: task has %s, written and re-read task has %s", c05_fname[fld], want, got);
+}
+
+struct pos_s {
+	int full_k;
+	int form;
+};
+
+static void
+per_schedule(const char *kind, const char *lines, void *clo)
+{
+	const struct pos_s *o = clo;
+	static char text[4096];
+	static struct c05_rt_s r;
+	char flat[640];
+	int ks[48], nk, n;
+
+	c05_flat(flat, sizeof(flat), lines);
+	vd_desc("%s", flat);
+	c05_fields_text(text, sizeof(text), "c05-pos@verif", C05_POS_ATTRS, 0, 0, 1, lines);
+	n = c05_total(text, 400);
+	if (n == -2) {
+		char sig[VD_SIGLEN];
+		snprintf(sig, sizeof(sig), "unreadable/task/0/%s", kind);
+		vd_sh->evals++;
+		vd_viol(sig, "the parser yields no task for the schedule");
+		return;
+	}
+	nk = c05_klist(ks, 48, n, o->full_k);
+	for (int j = 0; j < nk; j++) {
+		const int k = ks[j];
+		const char *kcl = c05_kclass(k, n);
+		struct attr_clo_s ac = {kcl, kind};
+		char sig[VD_SIGLEN];
+
+		vd_beat();
+		vd_sh->evals++;
+		vd_desc("%s | after k=%d pops (stream has %d%s)", flat, k, n < 0 ? 400 : n, n < 0 ? "+" : "");
+		switch (c05_roundtrip(&r, text, lines, k, o->form, attr_diff, &ac)) {
+		case 0:
+			break;
+		case 1:
+			vd_count("skipped_consumed_beyond_2099", 1);
+			/*@fallthrough@*/
+		default:
+			continue;
+		}
+		if (r.nremain >= 2 && k >= 1) {
+			vd_nontrivial();
+		}
+		if (vd_want_sample() && k >= 1 && r.nremain >= 2) {
+			char wf[200];
+			const char *w = strstr(r.written, "DTSTART");
+			vd_sample("%s | k=%d: %d left, re-read %d, written: %s", flat, k, r.nremain, r.nreread,
+				  w ? c05_flat(wf, sizeof(wf), w) : "(nothing)");
+		}
+		if (r.ntasks > 1) {
+			snprintf(sig, sizeof(sig), "split/task/%s/%s", kcl, kind);
+			vd_viol(sig, "one task was written, %d were read back", r.ntasks);
+		}
+		if (r.ghost) {
+			snprintf(sig, sizeof(sig), "ghost/task/%s/%s", kcl, kind);
+			vd_viol(sig, "%s", r.detail);
+		} else if (r.rejected) {
+			snprintf(sig, sizeof(sig), "rejected/task/%s/%s", kcl, kind);
+			vd_viol(sig, "%s", r.detail);
+		} else if (r.differ) {
+			snprintf(sig, sizeof(sig), "remaining/%s/%s/%s", r.what, kcl, kind);
+			vd_viol(sig, "%s", r.detail);
+		} else if (r.durdiffer) {
+			snprintf(sig, sizeof(sig), "duration/DURATION/%s/%s", kcl, kind);
+			vd_viol(sig, "%s", r.detail);
+		}
+	}
 }
 
 static void
 enumerate(void)
 {
-	const int full_k = !strcmp(vd_opt("ks", "full"), "full");
-	const int form = !strcmp(vd_opt("form", "echsd"), "echsq") ? C05_FORM_ECHSQ : C05_FORM_ECHSD;
-	static char text[4096];
-	static struct c05_rt_s r;
+	struct pos_s o = {
+		!strcmp(vd_opt("ks", "full"), "full"),
+		!strcmp(vd_opt("form", "echsd"), "echsq") ? C05_FORM_ECHSQ : C05_FORM_ECHSD,
+	};
 
 	vd_count_cases = 0;
-	c05_build_schedules((int)vd_opt_l("ext", 1), (int)vd_opt_l("gram", 1), (int)vd_opt_l("maxparts", 1),
-			    (int)vd_opt_l("menucap", 1), vd_opt("intervals", "1"), (int)vd_opt_l("anchors", 1),
-			    !strcmp(vd_opt("terms", "quick"), "full"));
-
-	for (int si = 0; si < c05_nsch && !vd_stop(); si++) {
-		const struct c05_sch_s *s = &c05_sch[si];
-		char flat[640];
-		int ks[48], nk, n;
-
-		if (!vd_next()) {
-			continue;
-		}
-		c05_flat(flat, sizeof(flat), s->lines);
-		vd_desc("%s", flat);
-		vd_shape("position/%s", s->kind);
-		c05_fields_text(text, sizeof(text), "c05-pos@verif", C05_POS_ATTRS, 0, 0, 1, s->lines);
-		n = c05_total(text, 400);
-		if (n == -2) {
-			char sig[VD_SIGLEN];
-			snprintf(sig, sizeof(sig), "unreadable/task/0/%s", s->kind);
-			vd_sh->evals++;
-			vd_viol(sig, "the parser yields no task for the schedule");
-			continue;
-		}
-		nk = c05_klist(ks, 48, n, full_k);
-		for (int j = 0; j < nk; j++) {
-			const int k = ks[j];
-			const char *kcl = c05_kclass(k, n);
-			struct attr_clo_s ac = {kcl, s->kind};
-			char sig[VD_SIGLEN];
-
-			vd_beat();
-			vd_sh->evals++;
-			vd_desc("%s | after k=%d pops (stream has %d%s)", flat, k, n < 0 ? 400 : n, n < 0 ? "+" : "");
-			if (c05_roundtrip(&r, text, s->lines, k, form, attr_diff, &ac) < 0) {
-				continue;
-			}
-			if (r.nremain >= 2 && k >= 1) {
-				vd_nontrivial();
-			}
-			if (vd_want_sample() && k >= 1 && r.nremain >= 2) {
-				vd_sample("%s | k=%d: %d left, re-read %d, written: %.300s", flat, k, r.nremain, r.nreread,
-					  strstr(r.written, "DTSTART") ? strstr(r.written, "DTSTART") : "(nothing)");
-			}
-			if (r.ntasks > 1) {
-				snprintf(sig, sizeof(sig), "split/task/%s/%s", kcl, s->kind);
-				vd_viol(sig, "one task was written, %d were read back", r.ntasks);
-			}
-			if (r.ghost) {
-				snprintf(sig, sizeof(sig), "ghost/task/%s/%s", kcl, s->kind);
-				vd_viol(sig, "%s", r.detail);
-			} else if (r.rejected) {
-				snprintf(sig, sizeof(sig), "rejected/task/%s/%s", kcl, s->kind);
-				vd_viol(sig, "%s", r.detail);
-			} else if (r.differ) {
-				snprintf(sig, sizeof(sig), "remaining/%s/%s/%s", r.what, kcl, s->kind);
-				vd_viol(sig, "%s", r.detail);
-			} else if (r.durdiffer) {
-				snprintf(sig, sizeof(sig), "duration/DURATION/%s/%s", kcl, s->kind);
-				vd_viol(sig, "%s", r.detail);
-			}
-		}
-	}
+	c05_for_schedules((int)vd_opt_l("ext", 1), (int)vd_opt_l("gram", 1), (int)vd_opt_l("maxparts", 1),
+			  (int)vd_opt_l("menucap", 1), vd_opt("intervals", "1"), (int)vd_opt_l("anchors", 1),
+			  !strcmp(vd_opt("terms", "quick"), "full"), (int)vd_opt_l("date3", 0), per_schedule, &o);
 }
 
 int
